@@ -495,6 +495,29 @@ func c16Zeroize(r *hx.Rng, content, unit, val string, p float64) string {
 // the model is about placement), the text ToText wrote and the CSV records and
 // warnings ToCSV wrote (CSV parsed back with encoding/csv).
 func c16TableCase(t *vb.Table, startRow int) (hx.Sx, bool, error) {
+	abs, noGeo := c16AbsTable(t)
+	var text, cbuf, wbuf bytes.Buffer
+	if err := t.ToText(&text, false); err != nil {
+		return hx.Sx{}, false, err
+	}
+	cw := csv.NewWriter(&cbuf)
+	n := t.ToCSV(cw, startRow, &wbuf)
+	cw.Flush()
+	rd := csv.NewReader(&cbuf)
+	rd.FieldsPerRecord = -1
+	recs, err := rd.ReadAll()
+	if err != nil {
+		return hx.Sx{}, false, err
+	}
+	var recx []hx.Sx
+	for _, rec := range recs {
+		recx = append(recx, hx.SList(rec))
+	}
+	return hx.L(abs, hx.I(startRow), hx.S(text.String()), hx.List(recx), hx.I(n), hx.S(wbuf.String())), noGeo, nil
+}
+
+// c16AbsTable is the abstract table of Model/Render.v for one real benchtab.Table.
+func c16AbsTable(t *vb.Table) (hx.Sx, bool) {
 	cls := benchunit.ClassOf(t.Unit)
 	var fields []*benchproc.Field
 	if len(t.Cols) > 0 {
@@ -542,25 +565,83 @@ func c16TableCase(t *vb.Table, startRow int) (hx.Sx, bool, error) {
 		sums = append(sums, hx.L(hx.L(hx.Bool(ts.HasSummary), hx.S(fmt.Sprint(ts.Summary)), hx.S(benchunit.Scale(ts.Summary, cls)),
 			hx.Bool(ts.HasRatio), hx.S(fmt.Sprintf("%+.2f%%", (ts.Ratio-1)*100)), c16Errs(ts.Warnings))))
 	}
-	var text, cbuf, wbuf bytes.Buffer
-	if err := t.ToText(&text, false); err != nil {
-		return hx.Sx{}, false, err
+	abs := hx.L(hx.S(t.Unit), hx.S(t.SummaryLabel), hx.I(len(fields)), hx.List(colkeys), hx.List(rows), hx.List(sums))
+	return abs, noGeo
+}
+
+// c16AddCsvTables records the real Tables.ToCSV output of a whole benchstat run
+// (kind 4): per table the table-key header lines that printTables emitted
+// before it (observed in the real Tables.ToText output: what lies between the
+// tables' own texts, without the blank separator line) and the abstract table;
+// every record Tables.ToCSV wrote (one per output line, the blank separators
+// included) and its warning stream. The model (Render.csv_tables_model)
+// predicts records and warnings, so the row numbers of the cell references
+// depend on counting every header and separator line.
+func c16AddCsvTables(o *hx.Out, tabs *vb.Tables, in bsInput) error {
+	if len(tabs.Tables) == 0 {
+		return nil
 	}
-	cw := csv.NewWriter(&cbuf)
-	n := t.ToCSV(cw, startRow, &wbuf)
-	cw.Flush()
-	rd := csv.NewReader(&cbuf)
-	rd.FieldsPerRecord = -1
-	recs, err := rd.ReadAll()
-	if err != nil {
-		return hx.Sx{}, false, err
+	var full bytes.Buffer
+	if err := tabs.ToText(&full, false); err != nil {
+		return err
+	}
+	rest := full.String()
+	var tx []hx.Sx
+	nhdr := 0
+	for i, t := range tabs.Tables {
+		var tb bytes.Buffer
+		if err := t.ToText(&tb, false); err != nil {
+			return err
+		}
+		idx := strings.Index(rest, tb.String())
+		if idx < 0 || tb.Len() == 0 {
+			return fmt.Errorf("c16: table %d text not found in Tables.ToText output", i)
+		}
+		hdr := rest[:idx]
+		rest = rest[idx+tb.Len():]
+		var lines []string
+		if hdr != "" {
+			lines = strings.Split(strings.TrimSuffix(hdr, "\n"), "\n")
+		}
+		if i > 0 {
+			if len(lines) == 0 || lines[0] != "" {
+				return fmt.Errorf("c16: no blank separator line before table %d", i)
+			}
+			lines = lines[1:]
+		}
+		nhdr += len(lines)
+		abs, _ := c16AbsTable(t)
+		tx = append(tx, hx.L(hx.SList(lines), abs))
+	}
+	var cbuf, wbuf bytes.Buffer
+	if err := tabs.ToCSV(&cbuf, &wbuf); err != nil {
+		return err
 	}
 	var recx []hx.Sx
-	for _, rec := range recs {
+	for _, line := range strings.Split(strings.TrimSuffix(cbuf.String(), "\n"), "\n") {
+		if line == "" {
+			recx = append(recx, hx.SList([]string{""})) // csv.Writer writes the record [""] as an empty line
+			continue
+		}
+		rd := csv.NewReader(strings.NewReader(line))
+		rd.FieldsPerRecord = -1
+		rec, err := rd.Read()
+		if err != nil {
+			return fmt.Errorf("c16: CSV line %q: %v", line, err)
+		}
 		recx = append(recx, hx.SList(rec))
 	}
-	abs := hx.L(hx.S(t.Unit), hx.S(t.SummaryLabel), hx.I(len(fields)), hx.List(colkeys), hx.List(rows), hx.List(sums))
-	return hx.L(abs, hx.I(startRow), hx.S(text.String()), hx.List(recx), hx.I(n), hx.S(wbuf.String())), noGeo, nil
+	o.Count(fmt.Sprintf("csvtables:tables=%d", min(len(tabs.Tables), 4)))
+	o.Count(fmt.Sprintf("csvtables:hdrlines=%d", min(nhdr, 4)))
+	if wbuf.Len() > 0 {
+		o.Count("csvtables:with-warnings")
+		if len(tabs.Tables) > 1 {
+			o.Count("csvtables:with-warnings-multi")
+		}
+	}
+	o.Add(hx.L(hx.I(4), hx.List(tx), hx.List(recx), hx.S(wbuf.String())), c16TC{Kind: "csv-tables", Input: in},
+		"tables:"+fmt.Sprint(in), len(tabs.Tables) > 1 && wbuf.Len() > 0)
+	return nil
 }
 
 type c16TC struct {
@@ -653,11 +734,11 @@ func c16RunTextCSV(o *hx.Out, dir string, in bsInput, fl bsFlags) error {
 		o.Count("textcsv:nonbaseline-col-without-geomean")
 	}
 	o.Add(hx.L(hx.I(3), hx.List(tabs)), c16TC{Kind: "text-vs-csv", Input: in}, fmt.Sprint(in), multi, tags...)
-	return nil
+	return c16AddCsvTables(o, run.tables, in)
 }
 
 func genC16(o *hx.Out, r *hx.Rng, tier string, replay string) error {
-	o.Rule = "text vs CSV: C14-style generated benchstat inputs (1-3 files, flag grid, missing cells, units with/without metadata, single-row tables) with extra zero/negative measurements (columns without geomean), run in process; per table the real ToText text and the real ToCSV records+warnings are compared cell by cell. benchtab: the real parse->Builder->ToTables->Table.ToText pipeline on 1-3 generated files (random/disjoint benchmark subsets, 1-7 samples, 1-2 units, -col .file | /format | .file,/format | goos): right borders of all header lines aligned, bars nested, no text beyond the border, no trailing blanks. texttab: random API call sequences (1-8 rows, 1-10 columns, spans 1-6 wider/narrower than the cells beneath, shrink patterns 0/30/60/100% incl. all-shrink spans, empty/blank cells, multi-byte text, margins) and benchstat-shaped tables with missing benchmarks; KeyHeader: random key slices over 1-4 fields with small value domains (incl. empty values, repeated non-adjacent prefixes). non-trivial = table has a multi-column span / header merges at least one pair of keys"
+	o.Rule = "text vs CSV: C14-style generated benchstat inputs (1-3 files, flag grid, missing cells, units with/without metadata, single-row tables) with extra zero/negative measurements (columns without geomean), run in process; per table the real ToText text and the real ToCSV records+warnings are compared cell by cell; per run the real Tables.ToCSV output (all records incl. blank separators and table-key header lines, warning stream) against the multi-table model, and every cell reference must name a data/summary record of its table. benchtab: the real parse->Builder->ToTables->Table.ToText pipeline on 1-3 generated files (random/disjoint benchmark subsets, 1-7 samples, 1-2 units, -col .file | /format | .file,/format | goos): right borders of all header lines aligned, bars nested, no text beyond the border, no trailing blanks. texttab: random API call sequences (1-8 rows, 1-10 columns, spans 1-6 wider/narrower than the cells beneath, shrink patterns 0/30/60/100% incl. all-shrink spans, empty/blank cells, multi-byte text, margins) and benchstat-shaped tables with missing benchmarks; KeyHeader: random key slices over 1-4 fields with small value domains (incl. empty values, repeated non-adjacent prefixes). non-trivial = table has a multi-column span / header merges at least one pair of keys"
 	n := 3000
 	if tier == "thorough" {
 		n = 150000
